@@ -150,7 +150,7 @@ def _search(seed, obname):
         root = trees[0]
         ops = []
         frag = 0
-        for step in range(rnd.randint(1, 9)):
+        for step in range(rnd.randint(1, 12)):
             t = rnd.choice(trees)
             op = rnd.choice(["w", "w", "ip", "ins"])
             if op == "w":
@@ -172,8 +172,16 @@ def _search(seed, obname):
                     refl = ["<%d>" % frag]
                 else:
                     refl = []
+                pre = None
+                if rnd.random() < 0.5:
+                    # a tree that already has an insertion point (its own stream is committed) and is written to later
+                    pre = o.insertion_point()
+                    refl = refl + [pre]
+                    ref[id(pre)] = []
                 t.insert(o)
                 trees.append(o)
+                if pre is not None:
+                    trees.append(pre)
                 ref[id(o)] = refl
                 ref[id(t)].append(o)
                 ops.append(("insert", trees.index(t), bool(refl)))
